@@ -179,3 +179,15 @@ def test_plain_classes_and_abcs():
     types = (d(T[Leaf, Node]),)
     assert ref.decide(types, [(sig(var=[A]), 0), (s_seq, 1), (s_tup, 2)]) == ([0, 1, 2], [2])
     assert ref.decide((d(T[int, int]),), [(sig(var=[A]), 0), (s_seq, 1), (s_tup, 2)]) == ([0, 1], [1])
+
+
+def test_typeof_and_to_typing():
+    assert ref.typeof(((0, 1),)) == d(T[T[int, int]])
+    assert ref.typeof(((0.0, 1.0),)) == d(T[T[float, float]])
+    assert ((0, 1),) == ((0.0, 1.0),) and ref.typeof(((0, 1),)) != ref.typeof(((0.0, 1.0),))
+    assert ref.typeof((False, frozenset([0.0]))) == d(T[bool, F[float]])
+    assert ref.typeof(()) == ("tuple*",) and ref.typeof(frozenset()) == ("fset*",)
+    assert ref.typeof(frozenset([(0,), (1.5,)])) is None
+    assert ref.typeof(Leaf(1, ("a",))) == ("gen", Leaf, (("cls", int), d(T[str])))
+    for t in (T[T[int, int]], T[bool, F[float]], T[int, ...], U[int, str], tuple, frozenset, int):
+        assert d(ref.to_typing(d(t))) == d(t)
